@@ -148,6 +148,23 @@ def weight_names_pair(W: Term, a: Term, b: Term) -> bool:
     return True
 
 
+def weight_oriented(W: Term, a: Term, b: Term) -> bool:
+    """Every arm of the arc weight W is d(a, b) in this order: M[a.idx][b.idx] / fn(a.features, b.features)."""
+    sel = as_selector(W)
+    arms = [sel[1], sel[2]] if sel else [W]
+    for arm in arms:
+        if is_matrix_read(arm):
+            pair = [arm[1][2], arm[2]]
+            nodes = [t[1] if t[0] == "attr" and t[2] == "idx" else None for t in pair]
+        elif is_metric_call(arm):
+            nodes = [t[1] if t[0] == "attr" and t[2] == "features" else None for t in arm[2]]
+        else:
+            return False
+        if nodes != [a, b]:
+            return False
+    return True
+
+
 def find_selectors(w: Walker) -> List[Selector]:
     """Every distinct selector term that occurs in an event of the walk."""
     out: Dict[Term, Selector] = {}
